@@ -74,6 +74,8 @@ def build(obj, kind, depth, wrapper):
 
 
 ENTRY = {
+    "pickle.loads(bytearray)": lambda b: pickle.loads(bytearray(b)),
+    "_pickle.loads(memoryview)": lambda b: _pickle.loads(memoryview(b)),
     "pickle.loads": lambda b: pickle.loads(b),
     "_pickle.loads": lambda b: _pickle.loads(b),
     "pickle.load": lambda b: pickle.load(io.BytesIO(b)),
